@@ -245,7 +245,16 @@ async fn case(case_seed: u64, cfg: &CaseCfg, exp: &Expect, acc: &mut Acc) {
         for k in names {
             let Some(bv) = ba.get(k) else { continue };
             acc.count("user_values_checked");
-            let want = elems(bv);
+            let mut want = elems(bv);
+            // sessions and tokens that expire, and revoked-session records, are removed by the passage
+            // of time whenever their entry is written: only never-expiring ones are judged
+            let n0 = want.len();
+            match k {
+                "user_auth_token_session" | "oauth2_session" => want.retain(|e| e.contains("\"e\":\"nv\"")),
+                "api_token_session" => want.retain(|e| e.contains("\"e\":null")),
+                _ => {}
+            }
+            acc.count_n("info.expiring_session_values_not_judged", (n0 - want.len()) as u64);
             let have = aa.get(k).map(elems).unwrap_or_default();
             let missing: Vec<&String> = want.difference(&have).collect();
             if !missing.is_empty() {
@@ -354,7 +363,7 @@ pub fn run(args: Args) {
     );
     run.assume("the reference for built-in entries is a fresh target-level server; only attributes whose stored value is identical on two fresh servers created at different clocks are judged");
     run.assume("initialise_helper(ct, DOMAIN_PREVIOUS_TGT_LEVEL) on an empty database yields what the previous release's database looks like (as the upstream migration tests assume)");
-    let cases_per_worker: u64 = args.tier.pick(4, 90) * 16 / (args.workers.max(1) as u64).min(16);
+    let cases_per_worker: u64 = args.tier.pick(4, 60) * 16 / (args.workers.max(1) as u64).min(16);
     let cfg = CaseCfg { ops: args.tier.pick(70, 90) };
     let seed = args.seed;
     let (exp, kept, dropped) = match srv::rt().block_on(fresh_reference()) {
@@ -408,7 +417,7 @@ pub fn run(args: Args) {
     let c = run.acc.counters.clone();
     let g = |k: &str| c.get(k).copied().unwrap_or(0);
     let n = g("cases");
-    run.require(n >= args.tier.pick(40, 1000), "too few cases completed");
+    run.require(n >= args.tier.pick(40, 800), "too few cases completed");
     run.require(g("upgrade.ok") >= n * 9 / 10, "too few successful upgrades");
     run.require(g("upgrade_mode.domain_raise_on_running_server") > 0 && g("upgrade_mode.restart_with_new_target_level") > 0, "an upgrade path was never taken");
     run.require(g("user_entries_checked.live") >= 8 * n && g("user_entries_checked.recycled") > 0, "too few user entries checked");
